@@ -3,6 +3,7 @@ mod ast;
 mod c01;
 mod c02;
 mod c03;
+mod c04;
 mod c13;
 mod evidence;
 mod impl_;
@@ -64,6 +65,7 @@ fn main() {
         "C01" => c01::run(&tier),
         "C02" => c02::run(&tier),
         "C03" => c03::run(&tier),
+        "C04" => c04::run(&tier),
         "C13" => c13::run(&tier),
         _ => {
             eprintln!("unknown check {}", id);
